@@ -1015,11 +1015,13 @@ impl StoryState {
         Ok(())
     }
 
-    pub fn pass_arguments_to_evaluation_stack(
-        &mut self,
+    /// Converts host arguments to runtime values without touching the state,
+    /// so that unsupported argument types can be refused before anything changes.
+    pub fn values_from_arguments(
         arguments: Option<&Vec<ValueType>>,
-    ) -> Result<(), StoryError> {
-        // Pass arguments onto the evaluation stack
+    ) -> Result<Vec<Rc<dyn RTObject>>, StoryError> {
+        let mut values: Vec<Rc<dyn RTObject>> = Vec::new();
+
         if let Some(arguments) = arguments {
             for arg in arguments {
                 let value = match arg {
@@ -1034,8 +1036,20 @@ impl StoryState {
                     }
                 };
 
-                self.push_evaluation_stack(Rc::new(value));
+                values.push(Rc::new(value));
             }
+        }
+
+        Ok(values)
+    }
+
+    pub fn pass_arguments_to_evaluation_stack(
+        &mut self,
+        arguments: Option<&Vec<ValueType>>,
+    ) -> Result<(), StoryError> {
+        // Pass arguments onto the evaluation stack (all of them or none)
+        for value in Self::values_from_arguments(arguments)? {
+            self.push_evaluation_stack(value);
         }
 
         Ok(())
